@@ -40,27 +40,42 @@ Proof.
   - apply IH; assumption.
 Qed.
 
+Lemma nodup_ids_unique s : NoDup (ids s) -> forall a b, In a s -> In b s -> id a = id b -> a = b.
+Proof.
+  induction s as [|r s IH]; intros Hnd a b Ha Hb E; [destruct Ha|].
+  cbn [ids map] in Hnd. inversion Hnd as [|? ? Hn Hnd']; subst.
+  destruct Ha as [<-|Ha], Hb as [<-|Hb].
+  - reflexivity.
+  - exfalso. apply Hn. rewrite E. apply in_map. exact Hb.
+  - exfalso. apply Hn. rewrite <- E. apply in_map. exact Ha.
+  - apply IH; assumption.
+Qed.
+
+(* one link: the child of a row flagged "orphan on arrival" is flagged too, whichever of the two arrived first *)
+Lemma desc_forb_orph_gen s : wf s -> forall r p, In r s -> In p s -> id p = prev r -> orph p = true -> orph r = true.
+Proof.
+  intros Hwf r p Hr Hp Hid IH.
+  destruct (wf_row_ok s Hwf r Hr) as [Hg|(pre & older & E & Hok)].
+  - exfalso. destruct Hg as (Hp0 & _). rewrite Hp0 in Hid.
+    destruct (wf_row_ok s Hwf p Hp) as [Hgp|(pre' & older' & E' & _)].
+    + destruct Hgp as (_ & Hnz & _). congruence.
+    + assert (Hwf': wf (p :: older')) by (apply (wf_suffix pre'); [rewrite <- E'; exact Hwf| discriminate]).
+      inversion Hwf' as [g Hg E0 | r0 s0 _ _ Hnz _ E0]; subst; [destruct Hg as (_ & Hnz & _)|]; congruence.
+  - unfold row_ok in Hok. destruct (by_hash older (prev r)) as [q|] eqn:Eq.
+    + destruct (by_hash_in _ _ _ Eq) as [Hq Hqid].
+      assert (q = p).
+      { apply (wf_ids_unique s Hwf); [rewrite E; apply in_or_app; right; right; exact Hq| exact Hp| congruence]. }
+      subst q. destruct Hok as (Ho & _). rewrite Ho. exact IH.
+    + apply Hok.
+Qed.
+
 (* the ghost flag: every descendant of a forbidden id "was an orphan when it arrived" *)
 Lemma desc_forb_orph f s : wf s -> no_forb f s -> memN 0%N f = false ->
   forall r, desc_forb f s r -> orph r = true.
 Proof.
   intros Hwf Hs Hz r Hd. induction Hd as [r Hr Hp | r p Hr Hp Hid Hd IH].
   - exact (forbidden_parent_orph f s r Hwf Hs Hz Hr Hp).
-  - destruct (wf_row_ok s Hwf r Hr) as [Hg|(pre & older & E & Hok)].
-    + (* r genesis: its previous hash is 0, and p has id 0: impossible (only genesis could, and it has a non-zero id) *)
-      exfalso. destruct Hg as (Hp0 & _). rewrite Hp0 in Hid.
-      destruct (wf_row_ok s Hwf p Hp) as [Hgp|(pre' & older' & E' & _)].
-      * destruct Hgp as (_ & Hnz & _). congruence.
-      * assert (Hwf': wf (p :: older')) by (apply (wf_suffix pre'); [rewrite <- E'; exact Hwf| discriminate]).
-        inversion Hwf' as [g Hg E0 | r0 s0 _ _ Hnz _ E0]; subst; [destruct Hg as (_ & Hnz & _)|]; congruence.
-    + unfold row_ok in Hok. destruct (by_hash older (prev r)) as [q|] eqn:Eq.
-      * (* the parent was stored before r: it is p *)
-        destruct (by_hash_in _ _ _ Eq) as [Hq Hqid].
-        assert (q = p).
-        { apply (wf_ids_unique s Hwf); [rewrite E; apply in_or_app; right; right; exact Hq| exact Hp| congruence]. }
-        subst q. destruct Hok as (Ho & _). rewrite Ho. exact IH.
-      * (* the parent arrived later (or is p itself arriving later): r was stored as an orphan *)
-        apply Hok.
+  - exact (desc_forb_orph_gen s Hwf r p Hr Hp Hid IH).
 Qed.
 
 (* every reachable store, ANY work values *)
@@ -137,39 +152,52 @@ Proof.
   exists r'. split; assumption.
 Qed.
 
-(* ---- executable oracle for observed tables: close the set of descendants under the parent relation, all ORPHAN ---- *)
+(* ---- executable oracle for observed tables (SyncSpec.spec_desc_orphan_all): sound and complete ---- *)
 From BHS Require Import SyncSpec.
 
-Lemma memN_In i l : memN i l = true <-> In i l.
+Lemma o_by_id_rows_of s i : o_by_id (rows_of s) i =
+  match by_hash s i with Some p => Some {| o_id := id p; o_prev := prev p; o_st := st p; o_cum := cum p |} | None => None end.
 Proof.
-  unfold memN. rewrite existsb_exists. split.
-  - intros (x & Hx & E). apply N.eqb_eq in E. subst. exact Hx.
-  - intros H. exists i. split; [exact H| apply N.eqb_refl].
+  unfold o_by_id, rows_of, by_hash. induction s as [|r s IH]; [reflexivity|].
+  cbn [map find o_id]. destruct (N.eqb (id r) i); [reflexivity| exact IH].
 Qed.
 
-Lemma iter_desc_sound f s : forall n d,
-  (forall i, In i d -> exists r, In r s /\ id r = i /\ desc_forb f s r) ->
-  forall i, In i (iter_desc f (rows_of s) n d) -> exists r, In r s /\ id r = i /\ desc_forb f s r.
-Proof.
-  induction n as [|n IH]; intros d Hd i Hi; [exact (Hd i Hi)|].
-  cbn [iter_desc] in Hi. apply (IH (step_desc f (rows_of s) d)); [|exact Hi].
-  clear i Hi. intros i Hi. unfold step_desc in Hi. apply in_map_iff in Hi. destruct Hi as (o & <- & Ho).
-  apply filter_In in Ho. destruct Ho as [Ho Hc]. unfold rows_of in Ho. apply in_map_iff in Ho.
-  destruct Ho as (r & <- & Hr). cbn in Hc |- *. exists r. split; [exact Hr|]. split; [reflexivity|].
-  apply orb_true_iff in Hc. destruct Hc as [Hc|Hc].
-  - apply df_child; assumption.
-  - apply memN_In in Hc. destruct (Hd _ Hc) as (p & Hp & Hid & Hdp). apply (df_step f s r p); assumption.
-Qed.
+Lemma st_eqb_Orphan x : st_eqb x Orphan = true <-> x = Orphan.
+Proof. destruct x; cbn; split; intros; congruence. Qed.
 
+(* accepted on every store satisfying the structural invariant: no false alarm *)
 Theorem desc_orphan_all_inv f s tip : Inv s tip -> no_forb f s -> memN 0%N f = false ->
   spec_desc_orphan_all f (rows_of s) = true.
 Proof.
-  intros HI Hs Hz. unfold spec_desc_orphan_all. apply forallb_forall. intros o Ho.
-  unfold rows_of in Ho. apply in_map_iff in Ho. destruct Ho as (r & <- & Hr). cbn [o_id o_st].
-  destruct (memN (id r) _) eqn:Hm; [|reflexivity].
-  apply memN_In in Hm. fold (rows_of s) in Hm.
-  destruct (iter_desc_sound f s _ [] (fun i (H : In i []) => match H with end) _ Hm) as (r' & Hr' & Hid & Hd).
-  assert (r' = r) by (apply (wf_ids_unique s); [apply HI| exact Hr'| exact Hr| exact Hid]). subst r'.
-  assert (Ho: orph r = true) by (apply (desc_forb_orph f s); [apply HI| exact Hs| exact Hz| exact Hd]).
-  apply (st_O_iff _ tip r HI Hr) in Ho. rewrite Ho. reflexivity.
+  intros HI Hs Hz. pose proof HI as (Hwf & _). unfold spec_desc_orphan_all. apply forallb_forall. intros o Ho.
+  unfold rows_of in Ho. apply in_map_iff in Ho. destruct Ho as (r & <- & Hr). cbn [o_prev o_st].
+  fold (rows_of s). rewrite o_by_id_rows_of.
+  destruct (memN (prev r) f || _) eqn:Hc; [|reflexivity].
+  apply st_eqb_Orphan. apply (st_O_iff _ tip r HI Hr).
+  apply orb_true_iff in Hc. destruct Hc as [Hc|Hc].
+  - exact (forbidden_parent_orph f s r Hwf Hs Hz Hr Hc).
+  - destruct (by_hash s (prev r)) as [p|] eqn:Ep; [|discriminate]. cbn [o_st] in Hc. apply st_eqb_Orphan in Hc.
+    destruct (by_hash_in _ _ _ Ep) as [Hp Hid].
+    apply (desc_forb_orph_gen s Hwf r p); try assumption.
+    apply (st_O_iff _ tip p HI Hp). exact Hc.
+Qed.
+
+(* accepted only if every descendant at any depth is an ORPHAN (ids pairwise distinct, as the primary key ensures) *)
+Theorem desc_orphan_all_complete f s : NoDup (ids s) ->
+  spec_desc_orphan_all f (rows_of s) = true -> forall r, desc_forb f s r -> st r = Orphan.
+Proof.
+  intros Hnd Hspec r Hd. unfold spec_desc_orphan_all in Hspec. rewrite forallb_forall in Hspec.
+  assert (Hrow: forall r, In r s ->
+     (memN (prev r) f || match o_by_id (rows_of s) (prev r) with Some p => st_eqb (o_st p) Orphan | None => false end) = true ->
+     st r = Orphan).
+  { intros x Hx Hc. specialize (Hspec _ (in_map _ s x Hx)). cbn [o_prev o_st] in Hspec. rewrite Hc in Hspec.
+    apply st_eqb_Orphan. exact Hspec. }
+  induction Hd as [r Hr Hp | r p Hr Hp Hid Hd IH].
+  - apply Hrow; [exact Hr|]. rewrite Hp. reflexivity.
+  - apply Hrow; [exact Hr|]. rewrite o_by_id_rows_of.
+    assert (E: by_hash s (prev r) = Some p).
+    { rewrite <- Hid. destruct (by_hash s (id p)) as [q|] eqn:Eq.
+      - destruct (by_hash_in _ _ _ Eq) as [Hq Hqid]. f_equal. apply (nodup_ids_unique s Hnd); assumption.
+      - exfalso. apply (by_hash_none _ _ Eq). apply in_map. exact Hp. }
+    rewrite E. cbn [o_st]. rewrite IH. cbn. apply orb_true_r.
 Qed.
